@@ -917,7 +917,7 @@ func (h *harness) hookSweep(p *pair, thorough bool) {
 		return
 	}
 	n := len(p.newChunks)
-	maxW := 4
+	maxW := 8
 	if thorough {
 		maxW = 1000
 	}
